@@ -1,1 +1,41 @@
 // ---- lemmas: user_disconnect — spec level, re-proved on every run ----
+
+// ---- LINK harnesses: the contracts other units ASSUME for System::delete_clients_for_user (the repair F70), proved from the real one ----
+// Each harness has the assuming unit's stub signature, its `requires` / `ensures` copied VERBATIM from that unit's prelude.rs, and a body
+// that is ONE call of the real extracted function: Verus proves "real contract ==> assumed contract" on every run. A later edit of a
+// stub has to be mirrored here (and vice versa). The assuming units keep MORE fields of System (users, storage, config, state ..) than
+// this unit: the frame `*final(self) == System { client_manager: .., ..*old(self) }` proved here is its projection on the kept fields (a
+// function that touched a dropped field would not type-check here: exit 2).
+impl System {
+    // copied from units/catalogue_more/prelude.rs, stub `System::delete_clients_for_user`. cm_keys_wf / members_wf / cm_ids_nonzero /
+    // client_left_all / user_clients_left there are word for word vx/prelude/disconnect.rs; `left_evt` / `membership_live` are
+    // UNINTERPRETED there ("this unit only passes them through") and are the definitions of vx/prelude/disconnect.rs here.
+    // label: C08.link.catalogue_more.system_delete_clients_for_user
+    pub fn link_catalogue_more_delete_clients_for_user(&mut self, user_id: u32)
+        requires cm_keys_wf(&old(self).client_manager), members_wf(&old(self).client_manager), cm_ids_nonzero(&old(self).client_manager),
+        ensures
+            *final(self) == (System { client_manager: final(self).client_manager, ..*old(self) }),
+            forall|k: u32| #[trigger] final(self).client_manager.clients@.contains_key(k)
+                <==> (old(self).client_manager.clients@.contains_key(k) && old(self).client_manager.clients@[k].user_id != Some(user_id)),
+            forall|k: u32| #[trigger] final(self).client_manager.clients@.contains_key(k) ==> final(self).client_manager.clients@[k] == old(self).client_manager.clients@[k],
+            user_clients_left(old(self).streams@, &old(self).client_manager, user_id),
+    {
+        self.delete_clients_for_user(user_id)
+    }
+
+    // copied from units/alloc_runtime/prelude.rs, stub `System::delete_clients_for_user`. The client manager is an opaque stand-in there and
+    // `cm_inv` an UNINTERPRETED predicate over it; the link INTERPRETS it (below) as the three representation invariants this unit's real
+    // function requires. The `requires` was added to the stub by this link (it had none), and System::delete_user of alloc_runtime now
+    // carries it as an exposed precondition.
+    // label: C06.link.alloc_runtime.system_delete_clients_for_user
+    pub fn link_alloc_runtime_delete_clients_for_user(&mut self, user_id: u32)
+        requires cm_inv(&old(self).client_manager),
+        ensures *final(self) == (System { client_manager: final(self).client_manager, ..*old(self) }),
+    {
+        self.delete_clients_for_user(user_id)
+    }
+}
+// (interpretation of units/alloc_runtime/prelude.rs `cm_inv`, uninterpreted there)
+pub open spec fn cm_inv(cm: &ClientManager) -> bool {
+    cm_keys_wf(cm) && members_wf(cm) && cm_ids_nonzero(cm)
+}
